@@ -510,3 +510,47 @@ _c08_before_inputs = EXTRA_CHECKS["C08"]
 EXTRA_CHECKS["C08"] = (lambda tier="quick", seed=0: _c08_before_inputs(tier, seed) + _c08_inputs(tier, seed))
 _c15_before_inputs = EXTRA_CHECKS["C15"]
 EXTRA_CHECKS["C15"] = (lambda tier="quick", seed=0: _c15_before_inputs(tier, seed) + _c15_inputs(tier, seed))
+
+
+# ---- C18: validation rules that can never fire.  A loop variable ranging over literal constants is compared with a constant it never takes
+def _replay_timed_rule():
+    """replay on the timed test framework shipped with the repository tests: the databook gets time-dependent values for the timed
+    duration parameter; ProjectData.validate states (in its own message) that this must be refused"""
+    import os
+
+    at, _ = _udt()
+    base = os.path.join(os.path.dirname(os.path.dirname(at.__file__)), "tests")
+    fw, db = os.path.join(base, "timed_test_framework.xlsx"), os.path.join(base, "timed_test_databook.xlsx")
+    if not (os.path.exists(fw) and os.path.exists(db)):
+        return dict(verdict="error", detail="tests/timed_test_framework.xlsx not found next to the package")
+    F = at.ProjectFramework(fw)
+    timed = [p for p in F.pars.index if F.pars.at[p, "timed"] == "y"][0]
+    D = at.ProjectData.from_spreadsheet(db, F)
+    pop = list(D.pops.keys())[0]
+    ts = D.tdve[timed].ts[pop]
+    ts.insert(2018, 1.0)
+    ts.insert(2025, 10.0)
+    pre = dict(framework="tests/timed_test_framework.xlsx", timed_parameter=timed, population=pop, values={"2018": 1.0, "2025": 10.0})
+    try:
+        D.validate(F)
+    except Exception as e:  # noqa
+        return dict(verdict="holds", detail="refused with %s: %s" % (type(e).__name__, str(e)[:160]), prestate=pre)
+    return dict(verdict="violates", detail="a databook with time-dependent values for the timed duration parameter %r was accepted by ProjectData.validate, whose own rule says it must have a constant value" % timed, prestate=pre)
+
+
+def _c18_dead_rules(tier="quick", seed=0):
+    import ast
+
+    from pyvc import source
+
+    out = []
+    for mod in ("data", "framework", "programs", "parameters", "excel"):
+        m = source.load(mod)
+        names = list(m.functions.keys()) + ["%s.%s" % (c, f.name) for c, (node, _) in m.classes.items() for f in node.body if isinstance(f, ast.FunctionDef)]
+        for n in sorted(names):
+            out += flow.comparisons_with_loop_constants_can_hold("%s:%s" % (mod, n))
+    return _attach(out, "comparison-can-hold", _replay_timed_rule)
+
+
+_c18_before_dead = EXTRA_CHECKS["C18"]
+EXTRA_CHECKS["C18"] = (lambda tier="quick", seed=0: _c18_before_dead(tier, seed) + _c18_dead_rules(tier, seed))
